@@ -73,6 +73,48 @@ def search(ctx):
     return out[:4000]
 
 
+# deviation classes that concern the files of a compilation, not macro expansion
+FILE_LEVEL = {"pragma-once-by-include-name", "duplicate-api-define", "paste-in-api-define"}
+
+
+def custom(ctx):
+    """standard run + cross-check of the class of the refinement theorem against the real code:
+    the model's driver decides (`C12.tame`, Model/MacroTame.lean `tameRun` on every block of text lines) whether a
+    program lies in the class on which `expand_refines_spec_decided` proves rssl = reference C algorithm.  On such a
+    program the real preprocessor must not differ from the harness's independent reference preprocessor in any way
+    that concerns macro expansion."""
+    ctx.standard_run()
+    if not ctx.spec.get("harness") or not ctx.harness_ok:
+        return
+    reqs = sorted(r for r in ctx.distinct if r.startswith("C12.run\t"))
+    if not reqs:
+        return
+    answers = ctx.run_model(["C12.tame" + r[len("C12.run"):] for r in reqs])
+    failing = {}
+    for req, obs, orc in ctx.oracle_failures:
+        failing.setdefault(req, (obs, orc))
+    tame, bad = 0, []
+    for req, a in zip(reqs, answers):
+        if a != "tame":
+            continue
+        tame += 1
+        if req in failing:
+            obs, orc = failing[req]
+            m = re.match(r"FAIL:differs-from-C\[([^\]]+)\]", orc)
+            classes = set(m.group(1).split("+")) if m else {"panic"}
+            if classes - FILE_LEVEL:
+                bad.append((req, obs, orc))
+    ctx.extra["tame_class"] = {
+        "programs_classified": len(reqs), "tame": tame, "tame_but_real_differs_from_reference": len(bad),
+        "meaning": "tame = every block of text lines of the program is accepted by tameRun (class of "
+                   "expand_refines_spec_decided); on those the real output must equal the reference preprocessor's"}
+    ctx.say(f"[{ctx.id}] class of expand_refines_spec_decided: {tame} of {len(reqs)} programs are tame, "
+            f"{len(bad)} of them differ from the reference")
+    for req, obs, orc in bad[:3]:
+        ctx.broken.append("expand_refines_spec_decided claims rssl = C on a tame program, but the real preprocessor "
+                          f"differs from the reference on it: {req!r} -> {obs!r} ({orc})")
+
+
 SPEC = {
     "id": "C12",
     "gens": ["MacroTables"],
@@ -92,6 +134,7 @@ SPEC = {
     "finding_key": finding_key,
     "shrink": shrink,
     "search": search,
+    "custom": custom,
     "level_text": "Proof, partial. Kernel-checked for every macro list, token list, API define list and include graph: the "
                   "model's expansion function (loop + recursive expansion of arguments and bodies of preprocess.rs, after the d00f5aa "
                   "fix) is total by the lexicographic measure (enabled macros, tokens right of next_pos), its measure guards never "
